@@ -24,6 +24,14 @@ R4 auto-po2 adjustment (qtools_util.adjust_multiplier_for_auto_po2 /
    must be built from the adjusted copy - not the original - with the same
    kernel-shape rule (depthwise: spatial dims only) and bias adder as the
    plain accumulator.
+R6 wiring of the pooling and activation arms of the data-type map: the
+   pooling accumulator is built from a stand-in multiplier whose output is
+   the input type and from a kernel of (pool window or, for global pooling,
+   the input's spatial dims) + (1, 1) with use_bias=False; quantized pooling
+   multiplies the accumulator output by the converted average quantizer and
+   reports the multiplier output, plain pooling the accumulator output; an
+   activation layer reports its own quantizer; the entry keys the energy
+   model reads are bound to these objects.
 R5 activation propagation (qgraph.GraphPropagateActivationsToEdges,
    interpreted on a synthetic graph): every outgoing edge of a vertex - and
    the vertex's out_quantizer - carries the quantizer of QActivation /
@@ -637,6 +645,533 @@ def rule_propagation(rep, repo):
               (name, nodes[i]["out_quantizer"], want), loc=loc)
 
 
+def find_arm_by(fn, needles):
+  for n in ast.walk(fn):
+    if isinstance(n, ast.If):
+      t = ast.unparse(n.test)
+      if all(x in t for x in needles):
+        return n
+  return None
+
+
+def rule_other_arms(rep, repo):
+  gm = repo.module(GM)
+  fn = gm.functions["generate_layer_data_type_map"]
+  pool_arm = find_arm_by(fn, ["AveragePooling2D", "QGlobalAveragePooling2D",
+                              "layer.__class__.__name__"])
+  act_arm = find_arm_by(fn, ["QActivation", "QAdaptiveActivation",
+                             "node_type"])
+  if pool_arm is None or act_arm is None:
+    raise AnalysisError("anchor-missing pooling / activation arm of "
+                        "generate_layer_data_type_map")
+  unit = "%s::generate_layer_data_type_map[pooling arm]" % gm.relpath
+  rep.unit(unit)
+  loc = gm.loc(pool_arm)
+
+  def tagq(tag):
+    return Mock(tag, {"bits": 8, "int_bits": 0, "is_signed": 1, "mode": 0,
+                      "name": "quantized_bits", "is_floating_point": False})
+  for cname in ("AveragePooling2D", "GlobalAveragePooling2D",
+                "QAveragePooling2D", "QGlobalAveragePooling2D"):
+    log = []
+    input_q = tagq("input_quantizer")
+    qk_avg = tagq("qkeras_average_q")
+
+    def make_quantizer(pe, a, k):
+      t = tagq("qtools(avg)")
+      t.attrs["__src__"] = a[0]
+      return t
+    qf = Mock("quantizer_factory", {
+        "make_quantizer": make_quantizer,
+        "make_default_quantizer": lambda pe, a, k: tagq("default")})
+
+    def make_multiplier(pe, a, k):
+      m = Mock("multiplier", {"output": tagq("multiplier.output")})
+      log.append(("mult", a[0], a[1], m))
+      return m
+
+    def make_accumulator(pe, a, k):
+      acc = Mock("accumulator", {"output": tagq("acc.output")})
+      # the stand-in multiplier's output at the time of the call
+      log.append(("acc", tuple(a[0]), a[1], a[1].attrs.get("output"),
+                  k.get("use_bias", a[2] if len(a) > 2 else "<default>"),
+                  acc))
+      return acc
+    qops = Mock("quantized_operators", {
+        "MultiplierFactory": Mock("MF", {"__call__": lambda pe, a, k: Mock(
+            "mf", {"make_multiplier": make_multiplier})}),
+        "AccumulatorFactory": Mock("AF", {"__call__": lambda pe, a, k: Mock(
+            "af", {"make_accumulator": make_accumulator})})})
+    layer = Mock("layer", {
+        "name": "P", "pool_size": (2, 3),
+        "__class__": Mock("class", {"__name__": cname}),
+        "get_quantizers": lambda pe, a, k: [qk_avg]})
+    edges = []
+
+    def update_out(pe, a, k):
+      edges.append(a[3])
+      return a[3]
+    pe = PE(repo, module_overrides={gm.name: {
+        "update_output_quantizer_in_graph": update_out,
+        "quantized_operators": qops}})
+    pe.opaque_ext = True
+    lmap = {}
+    frame = {
+        "layer": layer, "node_type": cname,
+        "input_qe_list": [(input_q, {"shape": (None, 8, 6, 4)})],
+        "input_quantizer_list": [input_q], "input_shape": (None, 8, 6, 4),
+        "quantizer_factory": qf, "for_reference": False,
+        "keras_accumulator": None, "debug": False,
+        "cfg": Mock("cfg", {"default_interm_quantizer": "int8"}),
+        "layer_data_type_map": lmap, "graph": Mock("graph", {}),
+        "node_id": 1, "output_shapes": (None, 4, 2, 4),
+        "operation_count": 100}
+    cfg = cname
+    try:
+      pe.exec_block(pool_arm.body, [frame], gm)
+    except PyRaise as e:
+      rep.fail("R6", unit, "arm-raises", "%s: the pooling arm raises %s" %
+               (cfg, e), loc=loc, instance=cfg)
+      continue
+    quantized = cname.startswith("Q")
+    is_global = "Global" in cname
+    mults = [l for l in log if l[0] == "mult"]
+    accs = [l for l in log if l[0] == "acc"]
+    want_kernel = (8, 6, 1, 1) if is_global else (2, 3, 1, 1)
+    ok = len(accs) == 1 and accs[0][1] == want_kernel and mults and \
+        accs[0][2] is mults[0][3] and accs[0][3] is input_q and \
+        accs[0][4] is False and mults[0][1] is input_q and \
+        mults[0][2] is input_q
+    rep.check(ok, "R6", unit, "pool-accumulator-wiring",
+              "%s: the pooling accumulator is built from kernel %s, "
+              "multiplier output %s, use_bias=%s; expected kernel %s, a "
+              "stand-in multiplier of (input, input) whose output is the "
+              "input type, use_bias=False" % (
+                  cfg, accs[0][1] if accs else None,
+                  accs[0][3] if accs else None, accs[0][4] if accs else None,
+                  want_kernel), loc=loc, instance=cfg)
+    ent = lmap.get(layer)
+    if not isinstance(ent, dict):
+      rep.fail("R6", unit, "no-entry-stored", "%s: no entry stored" % cfg,
+               loc=loc, instance=cfg)
+      continue
+    acc_obj = accs[0][5] if accs else None
+    rep.check(ent.get("pool_sum_accumulator") is acc_obj, "R6", unit,
+              "entry-pool-accumulator", "%s: pool_sum_accumulator is %s" %
+              (cfg, ent.get("pool_sum_accumulator")), loc=loc, instance=cfg)
+    if quantized:
+      ok = len(mults) == 2 and acc_obj is not None and \
+          mults[1][1] is acc_obj.attrs["output"] and isinstance(
+              mults[1][2], Mock) and mults[1][2].attrs.get(
+                  "__src__") is qk_avg and \
+          ent.get("pool_avg_multiplier") is mults[1][3] and \
+          ent.get("average_quantizer") is mults[1][2] and \
+          edges == [mults[1][3].attrs["output"]]
+      rep.check(ok, "R6", unit, "quantized-pool-wiring",
+                "%s: the averaging multiplier must be (accumulator output, "
+                "converted average quantizer of get_quantizers()[0]), be "
+                "stored as pool_avg_multiplier, and its output type must go "
+                "to the outgoing edge; multiplier calls %s, edge %s" %
+                (cfg, [(m[1], m[2]) for m in mults], edges), loc=loc,
+                instance=cfg)
+    else:
+      rep.check(len(mults) == 1 and ent.get("pool_avg_multiplier") is None
+                and acc_obj is not None and
+                edges == [acc_obj.attrs["output"]], "R6", unit,
+                "plain-pool-wiring",
+                "%s: a plain pooling layer reports its accumulator output "
+                "and has no averaging multiplier (edge %s, multiplier %s)" %
+                (cfg, edges, ent.get("pool_avg_multiplier")), loc=loc,
+                instance=cfg)
+  # activation arm
+  unit2 = "%s::generate_layer_data_type_map[activation arm]" % gm.relpath
+  rep.unit(unit2)
+  loc2 = gm.loc(act_arm)
+  for cname, has_q in (("QActivation", True), ("QAdaptiveActivation", True),
+                       ("Activation", False)):
+    own_q = tagq("layer.quantizer")
+    default_q = tagq("default")
+    qf = Mock("quantizer_factory", {
+        "is_quantizer_supported": lambda pe, a, k: True,
+        "make_default_quantizer": lambda pe, a, k: default_q})
+    attrs = {"name": "A", "__class__": Mock("class", {"__name__": cname}),
+             "activation": tagq("layer.activation (not the quantizer)")}
+    if has_q:
+      attrs["quantizer"] = own_q
+    layer = Mock("layer", attrs)
+    edges = []
+
+    def update_out(pe, a, k):
+      edges.append(a[3])
+      return a[3]
+    pe = PE(repo, module_overrides={gm.name: {
+        "update_output_quantizer_in_graph": update_out}})
+    pe.opaque_ext = True
+    lmap = {}
+    input_q = tagq("input_quantizer")
+    frame = {
+        "layer": layer, "node_type": cname,
+        "input_quantizer_list": [input_q], "quantizer_factory": qf,
+        "for_reference": False, "keras_accumulator": None, "debug": False,
+        "cfg": Mock("cfg", {"default_interm_quantizer": "int8"}),
+        "layer_data_type_map": lmap, "graph": Mock("graph", {}),
+        "node_id": 1, "w_shapes": None, "b_shapes": None,
+        "output_shapes": (None, 8), "operation_count": 0}
+    try:
+      pe.exec_block(act_arm.body, [frame], gm)
+    except PyRaise as e:
+      rep.fail("R6", unit2, "arm-raises", "%s: the activation arm raises %s"
+               % (cname, e), loc=loc2, instance=cname)
+      continue
+    want = own_q if has_q else default_q
+    ent = lmap.get(layer)
+    oq = None
+    if isinstance(ent, dict):
+      oq = ent.get("output_quantizer")
+    elif ent is not None:
+      try:
+        oq = pe.getattr(ent, "output_quantizer")
+      except PyRaise:
+        oq = None
+    rep.check(edges == [want] and oq is want, "R6", unit2,
+              "activation-output-type",
+              "%s: the outgoing edge receives %s and the entry reports %s; "
+              "expected %s" % (cname, edges, oq, want), loc=loc2,
+              instance=cname)
+
+
+def rule_merge_and_passthrough_arms(rep, repo):
+  gm = repo.module(GM)
+  fn = gm.functions["generate_layer_data_type_map"]
+  merge_arm = find_arm_by(fn, ["is_merge_layers(layer)"])
+  pass_arm = find_arm_by(fn, ["is_shape_alternation_layers(layer)"])
+  if merge_arm is None or pass_arm is None:
+    raise AnalysisError("anchor-missing merge / shape-alternation arm")
+
+  def tagq(tag):
+    return Mock(tag, {"bits": 8, "int_bits": 0, "is_signed": 1, "mode": 0,
+                      "name": "quantized_bits", "is_floating_point": False})
+  unit = "%s::generate_layer_data_type_map[merge arm]" % gm.relpath
+  rep.unit(unit)
+  for cname in ("Add", "Multiply", "Concatenate"):
+    calls = []
+    mq = Mock("merge_quantizer", {"output": tagq("merge.output")})
+
+    def make_q(pe, a, k, calls=calls, mq=mq):
+      calls.append((a[0], a[1]))
+      return mq
+    qops = Mock("quantized_operators", {"MergeFactory": Mock("MF", {
+        "__call__": lambda pe, a, k: Mock("mf", {"make_quantizer": make_q})})})
+    edges = []
+
+    def update_out(pe, a, k, edges=edges):
+      edges.append(a[3])
+      return a[3]
+    qe = [(tagq("in0"), {"shape": (None, 8)}), (tagq("in1"),
+                                                {"shape": (None, 8)})]
+    layer = Mock("layer", {"name": "M", "__class__": Mock(
+        "class", {"__name__": cname})})
+    lmap = {}
+    pe = PE(repo, module_overrides={gm.name: {
+        "update_output_quantizer_in_graph": update_out,
+        "quantized_operators": qops}})
+    pe.opaque_ext = True
+    frame = {"layer": layer, "node_type": cname, "input_qe_list": qe,
+             "input_quantizer_list": [q for q, _ in qe],
+             "quantizer_factory": Mock("qf", {}), "for_reference": False,
+             "keras_accumulator": None,
+             "cfg": Mock("cfg", {"default_interm_quantizer": "int8"}),
+             "layer_data_type_map": lmap, "graph": Mock("graph", {}),
+             "node_id": 1, "output_shapes": (None, 8),
+             "operation_count": 8}
+    try:
+      pe.exec_block(merge_arm.body, [frame], gm)
+    except PyRaise as e:
+      rep.fail("R6", unit, "arm-raises", "%s: the merge arm raises %s" %
+               (cname, e), loc=gm.loc(merge_arm), instance=cname)
+      continue
+    ent = lmap.get(layer)
+    mult = pe.getattr(ent, "multiplier") if isinstance(ent, Mock) else (
+        ent or {}).get("multiplier")
+    oq = pe.getattr(ent, "output_quantizer") if isinstance(ent, Mock) else (
+        ent or {}).get("output_quantizer")
+    rep.check(calls == [(qe, cname)] and mult is mq and
+              edges == [mq.attrs["output"]] and oq is mq.attrs["output"],
+              "R6", unit, "merge-wiring",
+              "%s: the merge type must be MergeFactory().make_quantizer("
+              "input edges, class name); it is stored as the entry's "
+              "multiplier and its output goes to the outgoing edge (calls "
+              "%s, edge %s)" % (cname, calls, edges), loc=gm.loc(merge_arm),
+              instance=cname)
+  unit = "%s::generate_layer_data_type_map[shape arm]" % gm.relpath
+  rep.unit(unit)
+  for cname in ("Flatten", "MaxPooling2D", "UpSampling2D"):
+    edges = []
+
+    def update_out(pe, a, k, edges=edges):
+      edges.append(a[3])
+      return a[3]
+    ins = [tagq("in0")]
+    layer = Mock("layer", {"name": "S", "__class__": Mock(
+        "class", {"__name__": cname})})
+    lmap = {}
+    pe = PE(repo, module_overrides={gm.name: {
+        "update_output_quantizer_in_graph": update_out}})
+    pe.opaque_ext = True
+    frame = {"layer": layer, "node_type": cname,
+             "input_quantizer_list": ins,
+             "quantizer_factory": Mock("qf", {}), "for_reference": False,
+             "layer_data_type_map": lmap, "graph": Mock("graph", {}),
+             "node_id": 1, "output_shapes": (None, 8),
+             "operation_count": 0}
+    try:
+      pe.exec_block(pass_arm.body, [frame], gm)
+    except PyRaise as e:
+      rep.fail("R6", unit, "arm-raises", "%s: raises %s" % (cname, e),
+               loc=gm.loc(pass_arm), instance=cname)
+      continue
+    ent = lmap.get(layer)
+    oq = pe.getattr(ent, "output_quantizer") if isinstance(ent, Mock) else (
+        ent or {}).get("output_quantizer")
+    rep.check(edges == [ins[0]] and oq is ins[0], "R6", unit,
+              "pass-through-type",
+              "%s: a layer that only re-arranges values must hand on its "
+              "input type (edge %s, entry %s)" % (cname, edges, oq),
+              loc=gm.loc(pass_arm), instance=cname)
+
+
+def rule_output_update(rep, repo):
+  """R6 (edge update): update_output_quantizer_in_graph keeps an activation
+  quantizer that the layer itself specifies (the edge already carries it) and
+  otherwise writes the computed type on every outgoing edge; the reported
+  output type is the converted form of whichever was chosen."""
+  gm = repo.module(GM)
+  qg = repo.module("qkeras.qtools.qgraph")
+  fn = gm.functions.get("update_output_quantizer_in_graph")
+  if fn is None or "GraphUpdateEdge" not in qg.functions:
+    raise AnalysisError("anchor-missing update_output_quantizer_in_graph / "
+                        "GraphUpdateEdge")
+  unit = "%s::update_output_quantizer_in_graph" % gm.relpath
+  rep.unit(unit)
+  loc = gm.loc(fn)
+  for label, has_qa, supported, for_ref in (
+      ("layer with its own activation quantizer", True, True, False),
+      ("layer without activation quantizer", False, True, False),
+      ("unsupported activation quantizer", True, False, False),
+      ("for_reference", True, True, True)):
+    qa = Mock("qkeras activation quantizer", {})
+    newq = Mock("computed type", {})
+    edges = {1: {2: {"quantizer": qa if has_qa else None},
+                 3: {"quantizer": qa if has_qa else None}}}
+    graph = Mock("graph", {
+        "nodes": {1: {"out_quantizer": qa if has_qa else None}},
+        "edges": lambda pe, a, k: [(a[0], v) for v in edges[a[0]]],
+        "__getitem__": lambda pe, a, k: edges[a[0]]})
+    conv = []
+
+    def make_quantizer(pe, a, k, conv=conv):
+      t = Mock("converted", {"__src__": a[0]})
+      conv.append(a[0])
+      return t
+    qf = Mock("qf", {"make_quantizer": make_quantizer,
+                     "is_quantizer_supported":
+                         lambda pe, a, k, s_=supported: s_})
+    pe = PE(repo)
+    pe.opaque_ext = True
+    try:
+      r = pe.call(pe.lookup_global("update_output_quantizer_in_graph", gm),
+                  [graph, 1, qf, newq, for_ref], {})
+    except PyRaise as e:
+      rep.fail("R6", unit, "output-update-raises", "%s: raises %s" %
+               (label, e), loc=loc, instance=label)
+      continue
+    keep = has_qa and supported and not for_ref
+    want_src = qa if keep else newq
+    want_edges = [qa, qa] if keep else [newq, newq]
+    got_edges = [edges[1][2]["quantizer"], edges[1][3]["quantizer"]]
+    rep.check(isinstance(r, Mock) and r.attrs.get("__src__") is want_src
+              and all(g is w for g, w in zip(got_edges, want_edges)),
+              "R6", unit, "output-type-choice",
+              "%s: the reported output type is converted from %s and the "
+              "outgoing edges carry %s; expected %s on both" %
+              (label, r.attrs.get("__src__") if isinstance(r, Mock) else r,
+               got_edges, want_src), loc=loc, instance=label)
+
+
+def rule_input_types(rep, repo):
+  """R6 (edge reading): get_input_quantizers_advanced returns, for every
+  incoming edge in predecessor order, the converted quantizer of THAT edge
+  paired with that edge; a missing quantizer falls back to the source default
+  on input layers and to the intermediate default elsewhere."""
+  qu = repo.module("qkeras.qtools.qtools_util")
+  fn = qu.functions.get("get_input_quantizers_advanced")
+  if fn is None:
+    raise AnalysisError("anchor-missing get_input_quantizers_advanced")
+  unit = "%s::get_input_quantizers_advanced" % qu.relpath
+  rep.unit(unit)
+  loc = qu.loc(fn)
+  for is_input in (False, True):
+    qa, qb = Mock("edge quantizer a", {}), Mock("edge quantizer b", {})
+    edges = {(5, 9): {"quantizer": qa, "shape": "A"},
+             (7, 9): {"quantizer": None, "shape": "B"},
+             (3, 9): {"quantizer": qb, "shape": "C"}}
+    graph = Mock("graph", {
+        "predecessors": lambda pe, a, k: [5, 7, 3],
+        "edges": Mock("edges", {"__getitem__":
+                                lambda pe, a, k: edges[tuple(a[0])]})})
+
+    def make_quantizer(pe, a, k):
+      return None if a[0] is None else Mock("converted",
+                                            {"__src__": a[0]})
+    qf = Mock("qf", {
+        "make_quantizer": make_quantizer,
+        "make_default_quantizer": lambda pe, a, k: Mock(
+            "default", {"mode": k.get("mode", a[0] if a else None)})})
+    cfg = Mock("cfg", {"default_source_quantizer": "SRC",
+                       "default_interm_quantizer": "INTERM"})
+    pe = PE(repo)
+    pe.opaque_ext = True
+    label = "input layer" if is_input else "inner layer"
+    try:
+      r = pe.call(pe.lookup_global("get_input_quantizers_advanced", qu),
+                  [graph, 9, is_input, qf, cfg], {})
+    except PyRaise as e:
+      rep.fail("R6", unit, "input-types-raise", "%s: raises %s" % (label, e),
+               loc=loc, instance=label)
+      continue
+    ok = isinstance(r, list) and len(r) == 3 and all(
+        isinstance(t, (tuple, list)) and len(t) == 2 for t in r)
+    if ok:
+      (q0, e0), (q1, e1), (q2, e2) = r
+      ok = e0 is edges[(5, 9)] and e1 is edges[(7, 9)] and \
+          e2 is edges[(3, 9)] and q0.attrs.get("__src__") is qa and \
+          q2.attrs.get("__src__") is qb and \
+          q1.attrs.get("mode") == ("SRC" if is_input else "INTERM")
+    rep.check(ok, "R6", unit, "input-edge-types",
+              "%s: the (type, edge) pairs are %s; expected the converted "
+              "quantizer of each incoming edge with that edge, in "
+              "predecessor order, and the %s default for the edge without "
+              "a quantizer" % (label, r, "source" if is_input
+                               else "intermediate"), loc=loc, instance=label)
+
+
+def rule_estimator_bound(rep, repo, tier):
+  """R7: the weight-based estimator (estimate.analyze_accumulator) is
+  interpreted on a layer whose kernel and bias entries and whose input range
+  are symbols; every path through its python conditions gives the returned
+  size as a term.  On a rational grid of weights, biases and ranges the term
+  is evaluated (IEEE evaluator, nothing of the repository runs) and compared
+  with log2 of the exact largest magnitude max_c max(|P_c*xmax + N_c*xmin +
+  b_c|, |P_c*xmin + N_c*xmax + b_c|) (P_c / N_c = sum of the positive /
+  negative weights of channel c), which some input inside the range
+  attains."""
+  import itertools
+  import math
+  from ..pe import Obj, NDArr, NArr, explore
+  from ..ieee import ConstEval, Inconclusive
+  es = repo.module(ES)
+  fn = es.functions.get("analyze_accumulator")
+  if fn is None:
+    raise AnalysisError("anchor-missing estimate.analyze_accumulator")
+  unit = "%s::analyze_accumulator" % es.relpath
+  rep.unit(unit)
+  loc = es.loc(fn)
+  wvals = (F(-2), F(0), F(3, 2))
+  bpairs = ((F(-3), F(1, 2)), (F(0), F(0)), (F(1, 2), F(-3)))
+  ranges = [(F(-4), F(1)), (F(-2), F(0)), (F(0), F(3)), (F(-1), F(1)),
+            (F(1), F(4)), (F(-4), F(-1)), (F(-2), F(4)), (F(0), F(1, 2)),
+            (F(-1, 4), F(1, 2))]
+  if tier == "thorough":
+    wvals = (F(-2), F(-1, 4), F(0), F(3, 2))
+    ranges += [(F(-8), F(1, 8)), (F(-1, 8), F(8)), (F(2), F(2)),
+               (F(-3), F(-3))]
+  layers = (("QDense", "qkeras.qlayers.QDense", (2, 2)),
+            ("QConv2D", "qkeras.qconvolutional.QConv2D", (1, 2, 1, 2)),
+            ("QConv1D", "qkeras.qconvolutional.QConv1D", (2, 1, 2)),
+            ("QDepthwiseConv2D", "qkeras.qconvolutional.QDepthwiseConv2D",
+             (1, 1, 2, 2)))
+  npaths = 0
+  for lname, qual, shape in layers:
+    ci = repo.classes.get(qual)
+    if ci is None:
+      raise AnalysisError("anchor-missing class %s" % qual)
+    for use_bias in (True, False):
+      cfg = "%s(kernel %s, use_bias=%s)" % (lname, "x".join(map(str, shape)),
+                                            use_bias)
+      wsyms = ["w%d%d" % (r, c) for r in range(2) for c in range(2)]
+      # w<r><c>: input r, output channel c (last kernel axis)
+      k = NDArr.from_flat([Tensor(("sym", n), ()) for n in wsyms], shape)
+      b = NArr([Tensor(("sym", "b%d" % c), ()) for c in range(2)])
+
+      def run_(fork, ci=ci, k=k, b=b, use_bias=use_bias):
+        pe = PE(repo, module_overrides={
+            es.name: {"unfold_model": lambda pe, a, kw: a[0]}})
+        pe.opaque_ext = True
+        pe.fork = fork
+        layer = Obj(ci)
+        layer.attrs.update({
+            "name": "L", "use_bias": use_bias,
+            "get_weights": lambda pe, a, kw: [k, b] if use_bias else [k]})
+        model = Mock("model", {"layers": [layer]})
+        x = {"L": (Tensor(("sym", "xmin"), ()), Tensor(("sym", "xmax"), ()))}
+        return pe.call(pe.lookup_global("analyze_accumulator", es),
+                       [model, x], {})
+      try:
+        paths = explore(run_)
+      except Unsupported as e:
+        raise AnalysisError("unsupported-construct %s: %s" % (cfg, e))
+      bad = None
+      npts = 0
+      for path, res in paths:
+        npaths += 1
+        if isinstance(res, Exception):
+          rep.fail("R7", unit, "estimator-raises", "%s raises %s" % (cfg, res),
+                   loc=loc, instance=cfg)
+          continue
+        size = res.get("L") if isinstance(res, dict) else None
+        if not isinstance(size, Tensor):
+          rep.fail("R7", unit, "estimator-result-missing",
+                   "%s: no size is returned for the layer (%r)" % (cfg, res),
+                   loc=loc, instance=cfg)
+          continue
+        for ws in itertools.product(wvals, repeat=4):
+          for bp in (bpairs if use_bias else ((F(0), F(0)),)):
+            for xmin, xmax in ranges:
+              syms = dict(zip(wsyms, ws))
+              syms.update({"b0": bp[0], "b1": bp[1], "xmin": xmin,
+                           "xmax": xmax})
+              ev = ConstEval(0.0, syms=syms)
+              try:
+                if any(bool(ev(t)) != taken for t, taken in path):
+                  continue
+                got = ev(size.term)
+              except Inconclusive as e:
+                raise AnalysisError("unsupported-construct %s: %s" % (cfg, e))
+              true_max = F(0)
+              for c in range(2):
+                col = [ws[r * 2 + c] for r in range(2)]
+                pp = sum(w for w in col if w > 0)
+                nn = sum(w for w in col if w < 0)
+                hi = pp * xmax + nn * xmin + bp[c]
+                lo = pp * xmin + nn * xmax + bp[c]
+                true_max = max(true_max, abs(hi), abs(lo))
+              if true_max == 0:
+                continue
+              npts += 1
+              need = math.log2(true_max)
+              if not (got == got and got >= need - 1e-9) and bad is None:
+                bad = ("weights %s, bias %s, input range (%s, %s): returned "
+                       "size %s, but an input inside the range gives "
+                       "magnitude %s (log2 = %.3f)" % (
+                           [str(w) for w in ws], [str(v) for v in bp]
+                           if use_bias else None, xmin, xmax, got, true_max,
+                           need))
+      rep.check(bad is None, "R7", unit, "estimator-below-reachable-output",
+                "%s: %s" % (cfg, bad), loc=loc, instance=cfg,
+                facts={"grid_points": npts, "paths": len(paths)})
+  rep.extra["estimator_paths"] = npaths
+
+
 def run(rep, repo, tier):
   rep.trusted.append("the factories' own arithmetic is C16/C17; here only "
                      "which values are wired where")
@@ -649,6 +1184,13 @@ def run(rep, repo, tier):
   rule_auto_po2_adjust(rep, repo)
   rule_propagation(rep, repo)
   rep.require_instances("R5", 12)
+  rule_other_arms(rep, repo)
+  rule_merge_and_passthrough_arms(rep, repo)
+  rule_output_update(rep, repo)
+  rule_input_types(rep, repo)
+  rule_estimator_bound(rep, repo, tier)
+  rep.require_instances("R7", 8)
+  rep.require_instances("R6", 25)
   rep.require_instances("R4", 14)
   rep.require_instances("R3", 200)
   rep.require_instances("R1", 40)
